@@ -155,7 +155,7 @@ _add(
          "both ends, with and without an extra selector axis) are judged through current_at / spike_at; an in-place "
          "twin is compared bit-for-bit. One evaluation = one step or one delayed query; distinct = (synapse, dt, "
          "delay, tolerance, interpolation, query class, overbound setting, train, inplace, batch) abstractions.",
-    required=["steps_checked", "queries_checked", "twin_comparisons", "queries.in", "queries.beyond", "queries.negative",
+    required=["queries_with_nonfinite_out_of_bounds_value", "steps_checked", "queries_checked", "twin_comparisons", "queries.in", "queries.beyond", "queries.negative",
               "queries.limit", "queries.band", "queries.snap", "clears", "component_reads_checked", "synapses_redelayed_through_the_setter"],
     floor={"quick": 300, "thorough": 800},
     text="Held on every spike train and selector explored: the real synapses (float64) are stepped on generated trains, "
@@ -233,7 +233,7 @@ _add(
          "new layer is run k steps, cleared, compared state-by-state with a freshly built copy carrying its parameters and "
          "adaptations, and both replay 5 steps. One evaluation = one compared step or one clear position; distinct = "
          "(layer kind / combine, neuron, synapse, delay, capture, batch, clear position class) abstractions.",
-    required=["wiring_steps_checked", "component_states_compared", "clear_positions_checked", "replays_checked", "recurrent_layers_with_one_sided_output_transforms", "connection_kwargs_routing_checks", "clears_with_pending_updates_checked", "bicliques_with_inplace_transform_before_another_group", "recurrent_steps_with_additional_connection_inputs", "steps_at_a_new_batch_size_after_clear"],
+    required=["clears_dropping_learned_adaptations", "wiring_steps_checked", "component_states_compared", "clear_positions_checked", "replays_checked", "recurrent_layers_with_one_sided_output_transforms", "connection_kwargs_routing_checks", "clears_with_pending_updates_checked", "bicliques_with_inplace_transform_before_another_group", "recurrent_steps_with_additional_connection_inputs", "steps_at_a_new_batch_size_after_clear"],
     floor={"quick": 150, "thorough": 500},
     exhaustive={"quick": ["clear() at every position 0..T of each generated run"], "thorough": ["clear() at every position 0..T of each generated run"]},
     text="Held on every topology and run explored: layer outputs (and captured intermediates) equal the documented "
@@ -255,7 +255,7 @@ _add(
          "accumulator must receive the sum of the two cells' rules), all seven STDP-family trainers. One evaluation = one layer step + trainer call + update judged (parts, net change, "
          "applied change) against sums over recorded spike times; non-trivial when at least one spike pair contributes; "
          "distinct = (trainer, cell type, delay mode, sign mode, trace mode, reduction, batch, reward kind, pairs/no pairs).",
-    required=["trainer_steps_checked", "steps_with_pairs", "exhaustive_histories", "per_cell_override_cases", "multicell_steps_checked", "multicell_shared_connection_steps", "fractional_delay_steps_checked", "multicell_frozen_layer_cases", "episode_clears", "multicell_calls_limited_to_named_cells", "multicell_cases_applied_through_trainer_update", "steps_with_accumulated_pending_updates"],
+    required=["cases_with_the_trainer_stepped_from_a_layer_forward_hook", "trainer_steps_checked", "steps_with_pairs", "exhaustive_histories", "per_cell_override_cases", "multicell_steps_checked", "multicell_shared_connection_steps", "fractional_delay_steps_checked", "multicell_frozen_layer_cases", "episode_clears", "multicell_calls_limited_to_named_cells", "multicell_cases_applied_through_trainer_update", "steps_with_accumulated_pending_updates"],
     floor={"quick": 60, "thorough": 150},
     exhaustive={"quick": ["all 4^4 joint pre/post histories of one synapse x 4 sign modes x 2 trace modes"],
                 "thorough": ["all 4^5 joint pre/post histories of one synapse x 4 sign modes x 2 trace modes"]},
@@ -277,7 +277,7 @@ _add(
          "kernels vs the dedicated delay-adjusted rule on identical inputs; (c) all-zero delays vs the undelayed kernel "
          "rule; (d) exactly constructed t_delta == 0 ties. One evaluation = one step judged; distinct = (part, trainer, "
          "cell type, delay values, sign mode, reduction, batch, reward kind, active/silent).",
-    required=["formula_steps_checked", "steps_with_change", "steps_before_both_sides_spiked", "trainer_clears", "cross_steps_checked",
+    required=["cases_with_the_trainer_stepped_from_a_layer_forward_hook", "formula_steps_checked", "steps_with_change", "steps_before_both_sides_spiked", "trainer_clears", "cross_steps_checked",
               "zero_delay_steps_checked", "ties_checked", "tensor_valued_kernel_kwargs_cases", "multicell_steps_checked", "kernel_delayed_substep_delay_steps", "multicell_calls_limited_to_named_cells", "user_kernel_cases", "steps_with_accumulated_pending_updates"],
     floor={"quick": 60, "thorough": 150},
     text="Held on every history explored: the change applied by each real delay-adjusted / kernel trainer after every "
